@@ -298,6 +298,52 @@ def c07(res):
                       "non-powers of two; affine and projective views; VM and JIT; pools; a case = one heightmap, every column compared")
 
 
+def c08(res):
+    wd = workdir("C08")
+    q = res.tier == "quick"
+    res.models.append(model_check("MC_Mdc", "MC_Mdc.cfg", wd, workers=8, timeout=3000))
+    res.models.append(model_check("Mesh", "Mesh_quick.cfg" if q else "Mesh_thorough.cfg", wd, workers=12 if q else 16, timeout=20000))
+    res.models.append(model_check("Mesh", "Mesh_nocollapse.cfg" if q else "Mesh_nocollapse_thorough.cfg", wd, workers=12 if q else 16, timeout=20000))
+    # the block run checks "manifold iff no shared ambiguous face" and emits every sign field with the model's verdict
+    fields = os.path.join(wd, "fields.out")
+    res.gens.append(generate("MC_Mesh", "Mesh_block.cfg", wd, fields, workers=12 if q else 16, timeout=20000))
+    if "is violated" in open(fields).read():
+        raise ToolError("Mesh.tla: ManifoldIffNoSharedAmbiguous violated")
+    if not q:
+        f9 = os.path.join(wd, "fields9.out")
+        res.gens.append(generate("MC_Mesh", "Mesh_fields9.cfg", wd, f9, workers=16, timeout=20000))
+        with open(fields, "a") as out:
+            out.write(open(f9).read())
+    trace = os.path.join(wd, "trace.ndjson")
+    tr2 = os.path.join(wd, "trace_fields.ndjson")
+    if not run_recorder(res, "c08", [res.tier, trace], wd, timeout=6000):
+        return res.finish("recorder crashed")
+    if not run_recorder(res, "c08", ["fields", fields, tr2], wd, timeout=6000):
+        return res.finish("recorder crashed")
+    with open(trace, "a") as out:
+        out.write(open(tr2).read())
+    n, rej = validate("Trace_C08", trace, wd, timeout=10000, parallel=8)
+    res.validated = n - len(rej)
+    res.evaluations = n
+    res.samples = sample_lines(trace, maxlen=1500)
+    def sig(r, f):
+        pat = "none"
+        if r.get("dup_pairs", 0) > 0:
+            pat = "shared-ambiguous-face" if r.get("dup_saf") == r.get("dup_pairs") else "other"
+        return "shape=%s depth=%s backend=%s threads=%s w2m=%s fails=%s pattern=%s" % (
+            r.get("desc", "")[:160], r.get("depth"), r.get("backend"), r.get("threads"), r.get("w2m"), "+".join(sorted(f)), pat)
+    res.add_rejects(trace, rej, sig)
+    res.assumptions = ["volume clause is judged: |mesh volume - voxel-count volume| <= K x (surface area x cell size + 4 cell^3), K = 3 up to depth 3 and 1.5 from depth 4, both in f64",
+                       "orientation is decided globally through the sign of the enclosed volume; per-triangle outwardness is established on the "
+                       "design model only (winding rule of the dual walk), cell vertices are not constrained to their cells by the implementation",
+                       "shapes: CSG of spheres/boxes, cones and cylinders around grid lines, lattice-hugging bumpy slabs; surfaces inside the region"]
+    return res.finish("Mdc.tla (tables recomputed by the build-script algorithm, all 256 masks), Mesh.tla (octree with every collapse decision + "
+                      "dual walk: manifold on all explored sign fields; without collapsing, manifold exactly when no checkerboard face is shared by "
+                      "two single-vertex cells) checked by TLC; real meshes of random shapes at depths 1..6, transforms, both backends, 0/N threads: "
+                      "Trace_C08 decides manifoldness on the recorded triangles, finiteness, collapse events against Mdc!Collapsible, and the "
+                      "judged volume clause; a case = one mesh")
+
+
 def c09(res):
     wd = workdir("C09")
     q = res.tier == "quick"
@@ -512,7 +558,7 @@ def c11(res):
                       "Function and Shape APIs; a case = one call")
 
 
-CHECKS = {"C01": c01, "C03": c03, "C05": c05, "C06": c06, "C07": c07, "C09": c09, "C11": c11, "C12": c12, "C13": c13, "C02": c02, "C04": c04, "C10": c10, "C14": c14, "C15": c15, "C16": c16, "C17": c17, "C18": c18, "C19": c19, "C20": c20}
+CHECKS = {"C01": c01, "C03": c03, "C05": c05, "C06": c06, "C07": c07, "C08": c08, "C09": c09, "C11": c11, "C12": c12, "C13": c13, "C02": c02, "C04": c04, "C10": c10, "C14": c14, "C15": c15, "C16": c16, "C17": c17, "C18": c18, "C19": c19, "C20": c20}
 
 
 def replay(prop, path):
